@@ -434,6 +434,34 @@ theorem C19_total (c : Costs) (pl : Placement) (ls : List ELayer)
     · rw [← h.1, h1]; simp
     · rw [← h.2, h2]; simp
 
+/-- the report row of a layer is a function of the call's options and of THAT layer alone: whatever
+    layers are processed before it (output layers included) and after it, its row is its own rounded
+    entry under the placement passed to the call -/
+theorem C19_row_local (c : Costs) (pl : Placement) (l : ELayer) (pre post : List ELayer)
+    (res : List (String × Entry)) (T : ℤ)
+    (h : energyEstimate c pl (pre ++ l :: post) = some (res, T)) :
+    ∃ e, layerEntry c pl l = some e ∧ res[pre.length]? = some (l.className, e.round) := by
+  obtain ⟨es, hf, hres, -⟩ := C19_total c pl _ res T h
+  rw [List.forall₂_iff_get] at hf
+  obtain ⟨hlen, hget⟩ := hf
+  have hi : pre.length < (pre ++ l :: post).length := by simp
+  have hi' : pre.length < es.length := hlen ▸ hi
+  have hl : (pre ++ l :: post).get ⟨pre.length, hi⟩ = l := by simp
+  have he := hget pre.length hi hi'
+  rw [hl] at he
+  refine ⟨es.get ⟨pre.length, hi'⟩, he, ?_⟩
+  rw [hres, List.getElem?_zipWith]
+  simp [List.getElem?_eq_getElem hi']
+
+/-- **histories on one QTools object**: in a session of `pe` calls the k-th report is the report of a
+    single first call with the k-th options — no earlier call (same or different `rd_wr_on_io`,
+    placement, `min_sram_size`) can change it -/
+theorem C19_pe_session_history_free (c : Costs) (ls : List ELayer) (before after : List Placement)
+    (pl : Placement) :
+    (peSession c ls (before ++ pl :: after))[before.length]? = some (energyEstimate c pl ls) ∧
+    peSession c ls [pl] = [energyEstimate c pl ls] := by
+  simp [peSession]
+
 /-- With well-formed layers the truncation is the floor of a non-negative sum. -/
 theorem C19_total_floor (c : Costs) (pl : Placement) (ls : List ELayer)
     (res : List (String × Entry)) (T : ℤ) (hm : 0 ≤ c.sramMulFactor)
